@@ -7,10 +7,11 @@ import (
 	"encoding/json"
 
 	"github.com/saucelabs/forwarder/verifharness/core"
+	"github.com/saucelabs/forwarder/verifharness/srcgen"
 	"github.com/saucelabs/forwarder/verifharness/h2rig"
 )
 
-func init() { core.Register("C09", core.Scenario{Run: Run, Replay: Replay}) }
+func init() { core.Register("C09", core.Scenario{Run: Run, Replay: Replay, Prepare: srcgen.PrepareC09}) }
 
 const rule = "schedules of raw HTTP/2 frames (20-400 ops, 1-6 concurrent streams, both directions) written by two raw-frame endpoints through " +
 	"h2.Config.Proxy, one frame at a time with a barrier pair after each; generated adaptively from each endpoint's own ledger (windows 0-65536, " +
